@@ -300,6 +300,7 @@ class BoundaryInjector(object):
         self.fired = None
         self.trace = []
         self._patched = []
+        self._class_patches = {}
         seen = set()
         for label, inst in instances:
             if id(inst) in seen:
@@ -307,8 +308,15 @@ class BoundaryInjector(object):
             seen.add(id(inst))
             for m in ELEMENT_METHODS:
                 real = getattr(inst, m)
-                inst.__dict__[m] = self._wrap(label, m, real)
-                self._patched.append((inst, m))
+                try:
+                    if os.environ.get("VERIF_FORCE_CLASS_PATCH"):
+                        raise TypeError("forced (harness self-test)")
+                    inst.__dict__[m] = self._wrap(label, m, real)
+                    self._patched.append((inst, m))
+                except (AttributeError, TypeError):
+                    # instances without a __dict__ (e.g. __slots__): shadow the method on the
+                    # instance's class for the duration of the call, dispatching on identity
+                    self._patch_class(label, inst, m)
 
     def _wrap(self, label, mname, real):
         def wrapper(*a, **kw):
@@ -328,9 +336,38 @@ class BoundaryInjector(object):
 
         return wrapper
 
+    def _patch_class(self, label, inst, m):
+        cls = type(inst)
+        key = (cls, m)
+        if key not in self._class_patches:
+            had = m in cls.__dict__
+            orig = cls.__dict__.get(m)
+            table = {}
+            inj = self
+
+            def dispatch(self_, *a, **kw):
+                real = (orig.__get__(self_, cls) if had else getattr(super(cls, self_), m))
+                w = table.get(id(self_))
+                return w(real, *a, **kw) if w else real(*a, **kw)
+
+            setattr(cls, m, dispatch)
+            self._class_patches[key] = (had, orig, table)
+        wrapped = self._wrap
+
+        def call_with(real, *a, **kw):
+            return wrapped(label, m, real)(*a, **kw)
+
+        self._class_patches[key][2][id(inst)] = call_with
+
     def remove(self):
         for inst, m in self._patched:
             inst.__dict__.pop(m, None)
+        for (cls, m), (had, orig, _) in self._class_patches.items():
+            if had:
+                setattr(cls, m, orig)
+            else:
+                delattr(cls, m)
+        self._class_patches = {}
 
 
 class LineInjector(object):
